@@ -592,9 +592,14 @@ func runC03(r *Run) {
 	// ---------- (9) the chains of (7) with TTL-1 answers and real waits: entries expire during the history, lazy caches
 	// refresh in the background on copies of the context; see c03lazy.go
 	lazyStore03(r)
+	// ---------- (10) replies produced locally by plugins (hosts entries with one address family only, arbitrary, black_hole,
+	// reject) for query names of 240..255 wire octets; see c03long.go
+	for i, ns := 0, r.N(250, 6000); i < ns; i++ {
+		longLocal03(r, i)
+	}
 	// ---------- (8) DoH GET / POST through real HTTP/1.1 and HTTP/2 servers, POST bodies with and without a Content-Length
 	doh03(r)
-	r.Finish("(1) queries: IDs, names incl. mixed case / root / long, types and classes, flags, with/without OPT of sizes {0..65535}, malformed stream (QR, 0 or 2 questions, answer/authority records, 2 additionals) x scripted plugin outcome (answer with 0..30 records of up to 250 bytes, rcode 0..15 and extended with OPT, none, error, error after a response) x arrival via UDP, TCP, DoH GET, DoH POST; (2) random chains of 1..4 of {cache, redirect, hosts, black_hole, arbitrary, reject, ttl, ecs, prefer_ipv4, fallback, forward_edns0opt} in front of the scripted upstream, each chain queried 1..3 times; (3) two client queries with different IDs for one cached question (fresh entry / expired entry kept by lazy cache), the first held behind the cache until the second was answered; (4) 2..15 pipelined queries on one non-TCP connection through server.ServeTCP + EntryHandler, all answered at the same moment; (5) server.ServeUDP on a loopback socket (bound to 127.0.0.1 or to 0.0.0.0) + EntryHandler + the scripted last plugin of (1): 4..12 bursts from 2..8 client sockets, each socket writing 1..3 datagrams (queries of (1) with distinct IDs, malformed ones, datagrams that are no DNS message) before anything is read, every socket must receive exactly the replies to its own well-formed queries; (6) chains of 0..2 redirect (full / domain rules, nested), prefer_ipv4 or prefer_ipv6 (sometimes both), 0..2 of {ttl, ecs} in random order, half of them with a redirect in front, before a last plugin (sometimes behind fallback) scripted per query type (A / AAAA / other: address records, other records, no record, no response, error, error after a response), 1..3 queries per chain (names matching the rules in mixed case or not, A / AAAA / TXT / random type, well-formed and malformed, UDP / TCP / DoH): own ID and question, rcode within the outcomes the statement allows (own outcome, or the selector's empty answer when the preferred type had an address record); a third of the chains are a sub-sequence invoked as a plugin ($sub, which returns) or by jump, followed in the caller by a rule that answers locally (reject n / hosts / black_hole / arbitrary, sometimes only when there is no response yet); chains of redirect / selector / ttl only (alone, or as $sub / jump sub followed by reject n) are replayed on Model.C03Sel; (7) chains of 1..2 redirect (full / domain rules), 1..2 cache (lazy or not, half of them followed by [has_resp]accept), 0..2 of {ttl, ecs}, a third of them with hosts / arbitrary answering for the rules' sources (the sequence goes on with that response), in random order (two thirds with a redirect in front) before the scripted upstream, which leaves an existing response alone (cache hits and local answers travel on through redirects to caches that miss: F16), 2..5 queries per chain for DIFFERENT names of the chain's redirect rules (sources, targets, sometimes mixed case or another name) with one type / class / flags (sometimes CD flipped), alias first and target later and vice versa, UDP / TCP / DoH: own ID and question; a third of the histories with every cache of the chain dumped and loaded again between two queries (restart: dump_file written by Close and read by NewCache; API: GET /dump + POST /load_dump, with or without /flush), after which the same replies are owed; histories over full rules, caches and accept whose upstream always answered are replayed on Model.C03Store (dump + load = the same entries); (8) server.HttpHandler + EntryHandler behind net/http servers on loopback (HTTP/1.1, HTTP/2 over TLS): queries and scripted outcomes of (1) by DoH GET and DoH POST, the POST body with a Content-Length or streamed without one (chunked / no content-length header), written in one piece or in pieces of 1..n bytes, oracle of (1), every case also a line for Model.Handler; (9) chains cache (lazy or not) -> redirect -> cache (mostly lazy) [+ redirect, cache, ttl(max 1..2 s), [has_resp]accept; a quarter in random order] -> [!has_resp] upstream answering with TTL 1 s, 4..6 queries per chain over ~2 s of real time (one name, the other name of the rule 0.3..0.7 s later, again after the older entries expired while the younger ones are alive, then both again; a quarter with random names and gaps), chains run concurrently: fresh hits, expired entries, stale hits of lazy caches refreshed in the background on a copy of a context that may already carry a response (F17), oracle own ID and question only (not timing dependent); non-trivial = valid query")
+	r.Finish("(1) queries: IDs, names incl. mixed case / root / long, types and classes, flags, with/without OPT of sizes {0..65535}, malformed stream (QR, 0 or 2 questions, answer/authority records, 2 additionals) x scripted plugin outcome (answer with 0..30 records of up to 250 bytes, rcode 0..15 and extended with OPT, none, error, error after a response) x arrival via UDP, TCP, DoH GET, DoH POST; (2) random chains of 1..4 of {cache, redirect, hosts, black_hole, arbitrary, reject, ttl, ecs, prefer_ipv4, fallback, forward_edns0opt} in front of the scripted upstream, each chain queried 1..3 times; (3) two client queries with different IDs for one cached question (fresh entry / expired entry kept by lazy cache), the first held behind the cache until the second was answered; (4) 2..15 pipelined queries on one non-TCP connection through server.ServeTCP + EntryHandler, all answered at the same moment; (5) server.ServeUDP on a loopback socket (bound to 127.0.0.1 or to 0.0.0.0) + EntryHandler + the scripted last plugin of (1): 4..12 bursts from 2..8 client sockets, each socket writing 1..3 datagrams (queries of (1) with distinct IDs, malformed ones, datagrams that are no DNS message) before anything is read, every socket must receive exactly the replies to its own well-formed queries; (6) chains of 0..2 redirect (full / domain rules, nested), prefer_ipv4 or prefer_ipv6 (sometimes both), 0..2 of {ttl, ecs} in random order, half of them with a redirect in front, before a last plugin (sometimes behind fallback) scripted per query type (A / AAAA / other: address records, other records, no record, no response, error, error after a response), 1..3 queries per chain (names matching the rules in mixed case or not, A / AAAA / TXT / random type, well-formed and malformed, UDP / TCP / DoH): own ID and question, rcode within the outcomes the statement allows (own outcome, or the selector's empty answer when the preferred type had an address record); a third of the chains are a sub-sequence invoked as a plugin ($sub, which returns) or by jump, followed in the caller by a rule that answers locally (reject n / hosts / black_hole / arbitrary, sometimes only when there is no response yet); chains of redirect / selector / ttl only (alone, or as $sub / jump sub followed by reject n) are replayed on Model.C03Sel; (7) chains of 1..2 redirect (full / domain rules), 1..2 cache (lazy or not, half of them followed by [has_resp]accept), 0..2 of {ttl, ecs}, a third of them with hosts / arbitrary answering for the rules' sources (the sequence goes on with that response), in random order (two thirds with a redirect in front) before the scripted upstream, which leaves an existing response alone (cache hits and local answers travel on through redirects to caches that miss: F16), 2..5 queries per chain for DIFFERENT names of the chain's redirect rules (sources, targets, sometimes mixed case or another name) with one type / class / flags (sometimes CD flipped), alias first and target later and vice versa, UDP / TCP / DoH: own ID and question; a third of the histories with every cache of the chain dumped and loaded again between two queries (restart: dump_file written by Close and read by NewCache; API: GET /dump + POST /load_dump, with or without /flush), after which the same replies are owed; histories over full rules, caches and accept whose upstream always answered are replayed on Model.C03Store (dump + load = the same entries); (8) server.HttpHandler + EntryHandler behind net/http servers on loopback (HTTP/1.1, HTTP/2 over TLS): queries and scripted outcomes of (1) by DoH GET and DoH POST, the POST body with a Content-Length or streamed without one (chunked / no content-length header), written in one piece or in pieces of 1..n bytes, oracle of (1), every case also a line for Model.Handler; (9) chains cache (lazy or not) -> redirect -> cache (mostly lazy) [+ redirect, cache, ttl(max 1..2 s), [has_resp]accept; a quarter in random order] -> [!has_resp] upstream answering with TTL 1 s, 4..6 queries per chain over ~2 s of real time (one name, the other name of the rule 0.3..0.7 s later, again after the older entries expired while the younger ones are alive, then both again; a quarter with random names and gaps), chains run concurrently: fresh hits, expired entries, stale hits of lazy caches refreshed in the background on a copy of a context that may already carry a response (F17), oracle own ID and question only (not timing dependent); (10) chains of 1..4 of {hosts with domain: / full: entries of one address family or both, arbitrary with a record for a queried name, black_hole (one family or both), reject n, cache, prefer_ipv4 / prefer_ipv6, redirect between long names} in front of the scripted upstream, asked 3..6 queries (A / AAAA / other types, with and without OPT) for names of 240..255 wire octets under the entries' zones (labels of 63, mixed case) via UDP / TCP / DoH GET / DoH POST, a quarter of the chains behind the real server.ServeUDP and server.ServeTCP on loopback: the reply is a message a full unpack accepts with the query's ID and question, QR and RA (locally built records and the fake SOA of an empty answer must stay within 255 octets per name); non-trivial = valid query")
 }
 
 // overlap03: EntryHandler -> [cache, park] with an injected cache entry; query A (id a) is parked behind the cache with
